@@ -6,5 +6,5 @@ CONSTANTS
   ChunkStride = 1
   Walk = FALSE
   Kinds = {"half", "float", "double", "x86_fp80", "fp128", "ppc_fp128"}
-INVARIANTS RoundTrip DoubleFormOK Inexact ReadIdem Preserved EmittedExtra
+INVARIANTS RoundTrip DoubleFormOK Inexact ReadIdem ShortRule Preserved EmittedExtra
 CHECK_DEADLOCK FALSE
